@@ -18,6 +18,7 @@ func init() {
 	reg("C15", "C15.R4", "E2", "a busy action is not match-filtered: it receives every event of its stream", 1, ruleBusyNotFiltered)
 	reg("C15", "C15.R5", "E2", "k8s multi-line accumulators are reset together", 1, ruleAccumulatorsResetTogether)
 	reg("C15", "C15.R6", "E2", "Propagate clears the holder's busy mark before re-entry (same rule as C02.R8)", 1, rulePropagateResetsBusy)
+	reg("C15", "C15.R7", "E2", "an action stays busy (Hold/Collapse) only while its joining flag is true", 1, ruleBusyOnlyWhileJoining)
 }
 
 func ruleReceiverLocalState(c *Ctx, r *Rule) {
